@@ -230,6 +230,7 @@ pub fn check_program(ctx: &mut Ctx, start: &Pos, moves: &[Mv], ops: &[Op]) -> Re
                 let mode = fp(&(i, mask, "drain-mode")) % 16;
                 let steps_first = if mode < 12 { usize::MAX } else { (fp(&(i, "steps")) % 4) as usize };
                 let mut finished = false;
+                let mut skipped_unknown = 0usize;
                 while got.len() < steps_first {
                     lens.push((mg.len(), mg.size_hint()));
                     match mg.next() {
@@ -323,22 +324,22 @@ pub fn check_program(ctx: &mut Ctx, start: &Pos, moves: &[Mv], ops: &[Op]) -> Re
                         }
                         _ => {
                             ctx.class("drain:nth-then-rest");
-                            let k = (fp(&(i, "nth")) % 3) as usize;
+                            // nth(k) consumes k moves that the model never sees: they are accounted
+                            // for by number (and assumed to be moves of this phase)
+                            let k = (fp(&(i, "nth")) % 6) as usize;
                             let mut v: Vec<Mv> = vec![];
-                            // nth(k) skips k moves: take them one by one first so that nothing is lost to the model
-                            for _ in 0..k {
-                                if let Some(m) = mg.next() {
+                            match mg.nth(k) {
+                                Some(m) => {
+                                    skipped_unknown = k;
                                     v.push(bridge::rmv(m));
                                 }
-                            }
-                            if let Some(m) = mg.nth(0) {
-                                v.push(bridge::rmv(m));
+                                None => skipped_unknown = before.0,
                             }
                             v.extend(mg.by_ref().map(bridge::rmv));
                             v
                         }
                     };
-                    if before.0 != rest.len() || before.1 != (rest.len(), Some(rest.len())) {
+                    if before.0 != rest.len() + skipped_unknown || before.1 != (before.0, Some(before.0)) {
                         ctx.fail(
                             "iter:len",
                             format!("phase #{} (mask {:#x}): after {} moves len() = {}, size_hint() = {:?}, but {} more moves were yielded", i, mask, got.len(), before.0, before.1, rest.len()),
@@ -367,7 +368,8 @@ pub fn check_program(ctx: &mut Ctx, start: &Pos, moves: &[Mv], ops: &[Op]) -> Re
                 }
                 let total = got.len();
                 for (j, (l, sh)) in lens.iter().enumerate() {
-                    let want = total - j;
+                    // lengths recorded before the unseen moves were skipped include them
+                    let want = total - j + if j < steps_first.min(total) { skipped_unknown } else { 0 };
                     if *l != want || *sh != (want, Some(want)) {
                         ctx.fail(
                             "iter:len",
@@ -391,7 +393,15 @@ pub fn check_program(ctx: &mut Ctx, start: &Pos, moves: &[Mv], ops: &[Op]) -> Re
                         ctx.fail("iter:unexpected-move", format!("phase #{}: {} unexpected", i, m.uci()), case())?;
                     }
                 }
-                let missing: Vec<String> = must.iter().filter(|m| !seen.contains(*m)).map(|m| m.uci()).collect();
+                let missing_all: Vec<Mv> = must.iter().filter(|m| !seen.contains(*m)).copied().collect();
+                // moves consumed unseen by nth(k): that many moves of this phase may be missing from what
+                // was seen; they count as yielded from now on (if one shows up later it is a duplicate)
+                let missing: Vec<String> = if missing_all.len() <= skipped_unknown {
+                    yielded.extend(missing_all.iter().copied());
+                    vec![]
+                } else {
+                    missing_all.iter().map(|m| m.uci()).collect()
+                };
                 if !missing.is_empty() {
                     ctx.fail("iter:move-missing", format!("phase #{} (mask {:#x}): legal, not removed, not yet yielded moves {:?} landing on the mask were not yielded", i, mask, missing), case())?;
                 }
